@@ -14,6 +14,7 @@ more spaces continues the previous clause):
   panics-if <expr>                    panics allowed only under expr (entry state)
   loop <k> invariant[label] <expr>
   loop <k> decreases <expr>
+  loop <k> exit[label] <expr>
   loop <k> modifies <loc>, ...
   loop <k> unroll <n>
   pure                                callee has no side effects (for assumed contracts)
@@ -50,6 +51,7 @@ class LoopSpec:
         self.decreases = None
         self.modifies = []
         self.unroll = None
+        self.exits = []
 
 
 class FuncContract:
@@ -400,6 +402,13 @@ def parse_file(path, cs, repo='/repo', default_pkg=None):
                     ls.modifies.append(mk(part, lbl))
             elif sub == 'unroll':
                 ls.unroll = int(mm.group(4))
+            elif sub == 'exit':
+                # holds whenever the loop is left for code that goes on (not for a return or a
+                # panic out of the loop): `loop k exit $i == len(xs)` - no early break
+                c = mk(mm.group(4), lbl)
+                if c.label is None:
+                    c.label = str(len(ls.exits) + 1)
+                ls.exits.append(c)
             else:
                 raise ValueError('%s:%d: bad loop clause kind %s' % (path, n, sub))
         elif kw == 'spec':
